@@ -208,7 +208,9 @@ def plan(S, prop, mode, tier, avoid):
             op = {"k": "match", "m": m, "q": q, "self": q is base, "radius": rad,
                   "perpoint": chance(r, 0.25) and not (0.0 < rad < 5e-6), "rseed": r.randrange(1 << 30),
                   "maxmatch": wpick(r, [(-1, 3), (0, 2), (1, 3), (2, 2), (r.randrange(3, 8), 1), (1000, 1)]),
-                  "sink": wpick(r, [("mem", 3), ("file", 2)]), "path": "c%d_p%d.txt" % (c, r.randrange(2)),
+                  "sink": wpick(r, [("mem", 3), ("file", 2)]),
+                  # (output names that differ only by a suffix an implementation might use for a scratch or backup file)
+                  "path": "c%d_p%d.txt" % (c, r.randrange(2)) + wpick(r, [("", 10), (".tmp", 1), (".bak", 0.5), ("~", 0.5), (".part", 0.5)]),
                   "also": [a for a in ("oneshot", "depth2", "repeat") if chance(r, 0.35)],
                   "scalar_q": chance(r, 0.1), "c": c}
             if chance(r, 0.06):
@@ -426,6 +428,7 @@ def execute(script, run, env):
     judge = run.prop == "C12"
     c15 = run.prop == "C15"
     M = {}      # name -> dict(obj, ra, dec, depth, ncalls, last)
+    _PAIRFILES.clear()
     del _EARLIER[:]
     del _HELD.items[:]
     HH = {}     # name -> dict(obj HTM, depth, bufs {n: (ra, dec)}, ncalls)
@@ -472,6 +475,7 @@ def execute(script, run, env):
                 with open(os.path.join(root, op["p"]), "w") as fh:
                     for j in range(op["n"]):
                         fh.write("%d %d %.16g\n" % (j, j + 1, 0.123456789 * j))
+                _PAIRFILES.get(root, {}).pop(os.path.join(root, op["p"]), None)      # (the program itself replaced that file)
                 run.event(c, "stale", op["p"], "ok")
             elif k == "match":
                 do_match(run, op, M, htm, root, judge, c15)
@@ -510,6 +514,9 @@ def _guards(run, guards, call):
         if bad:
             run.fail("own.htm", {"call": call, "arg": nm, "present": g["kind"]},
                      "htm %s modified its %s argument (%s): %s" % (call, nm, g["kind"], bad))
+
+
+_PAIRFILES = {}       # scratch root of the run -> {path: (number of pairs, digest)} of the pair files written so far
 
 
 def do_match(run, op, M, htm, root, judge, c15):
@@ -613,6 +620,25 @@ def do_match(run, op, M, htm, root, judge, c15):
             if int(res) != m1.size:
                 run.fail("htm.file.count", feats, "%s returned %r but the file holds %d pairs%s" % (what, res, m1.size, " (a longer file was at the path before)" if stale else ""))
                 return
+            # the pair files this program wrote EARLIER under other names are still there and still hold their pairs
+            book = _PAIRFILES.setdefault(root, {})
+            for p_old, (n_old, dg_old) in list(book.items()):
+                if p_old == path:
+                    continue
+                try:
+                    po = htm.read_pairs(p_old)
+                    now = (int(po["i1"].size), adigest((np.asarray(po["i1"]), np.asarray(po["i2"]))))
+                except Exception as e:
+                    now = ("unreadable", type(e).__name__)
+                run.checks += 1
+                if now != (n_old, dg_old):
+                    run.fail("htm.file.earlier", dict(feats, other=os.path.basename(p_old)),
+                             "after %s the pair file %s written earlier (%d pairs) is %s"
+                             % (what, os.path.basename(p_old), n_old, "gone or unreadable (%s)" % now[1] if now[0] == "unreadable" else "different (%d pairs)" % now[0]))
+                    return
+            book[path] = (int(m1.size), adigest((np.asarray(m1), np.asarray(m2))))
+            if len(book) > 1:
+                run.fault("earlier_pair_files_read_again")
     else:
         if not (isinstance(res, tuple) and len(res) == 3):
             if judge:
@@ -717,6 +743,7 @@ def do_oneshot(run, op, HH, htm, root, judge):
         run.fault("oneshot_object_used_for_something_else_in_between")
     kw = {"maxmatch": maxmatch}
     path = os.path.join(root, op["path"])
+    _PAIRFILES.get(root, {}).pop(path, None)          # (a name the one-shot call is about to write, or may write)
     if op["sink"] == "file":
         kw["file"] = path
     what = "long-lived HTM(%d).match(%d pts, buffers[%d] refilled in place, radius=%r, maxmatch=%d%s) call #%d" % (
